@@ -420,7 +420,34 @@ class C06(Property):
                                    complex(pw[m, a, b]), dict(fn="plane_waves", k=k[m].tolist(), x=xg[a], y=yg[b])))
             amp = float(np.abs(np.asarray(sa.array)[0, 0, 0]))
             add(f"amp {f[0] * f[1]} {n0 * n1}", "_build_s_matrix amplitude", dict(fn="amp", interp=list(f), gpts=[n0, n1]), ("num", amp))
-        plines = [l for job in phase_jobs for l in job[1]]
+        # 6. ensemble bookkeeping of the eager path: rows of the measurement vs per-configuration results -------------
+        from abtem import CTF, FrozenPhonons, Potential
+
+        ens_jobs = []
+        for t in range(ctx.n(4, 24)):
+            c = gen_common(ctx)
+            c.update(gpts=[12, 12], nconf=rng.randint(1, 3), interpolation=[1, 1])
+            mean = (t % 2 == 0)
+            det_kind = ["waves", "annular", "waves", "pixelated"][t % 4]
+            c["detector"] = det_kind
+            atoms = make_atoms(c)
+            kw = dict(gpts=(12, 12), slice_thickness=c["cell"][2] / c["nslices"], projection="infinite")
+            mk = lambda: FrozenPhonons(atoms, c["nconf"], sigmas=0.1, seed=c["fpseed"], ensemble_mean=mean)
+            ctf = CTF(semiangle_cutoff=c["cutoff"], energy=ENERGY, **c["aberrations"])
+            scan = make_scan(dict(scan=dict(kind="custom", positions=[[0.5, 0.75], [1.25, 2.0]])))
+            full = np.asarray(smatrix(c, Potential(mk(), **kw)).reduce(scan=scan, ctf=ctf, detectors=make_detector(c), lazy=False).array)
+            per = [np.asarray(smatrix(c, Potential(a, **kw)).reduce(scan=scan, ctf=ctf, detectors=make_detector(c), lazy=False).array)
+                   for a in mk()]
+            flat = lambda a: np.concatenate([np.real(a).reshape(-1), np.imag(a).reshape(-1)]).astype(np.float64)
+            rs = [flat(a) for a in per]
+            m = len(rs[0])
+            rows = full.reshape(-1, per[0].size) if full.size != per[0].size else full.reshape(1, -1)
+            impl_rows = [flat(r) for r in rows]
+            case = dict(fn="_eager_build_s_matrix_detect", nconf=c["nconf"], ensemble_mean=mean, detector=det_kind,
+                        shape_full=list(full.shape), shape_one=list(per[0].shape))
+            ens_jobs.append((f"eager {'T' if mean else 'F'} {'T' if det_kind == 'waves' else 'F'} {m} " + listlist_s(rs, rat_s), case, impl_rows))
+            ctx.count(f"eager-bookkeeping:{det_kind}:mean={mean}:nconf={c['nconf']}")
+        plines = [l for job in phase_jobs for l in job[1]] + [j[0] for j in ens_jobs]
         outs = drv.query(lines + plines)
         k = 0
         for (fn, case, impl), out in zip(todo, outs[:len(lines)]):
@@ -456,7 +483,16 @@ class C06(Property):
             ctx.agree(case["fn"], case, [model.real, model.imag], [val.real, val.imag], ok=abs(model - val) <= 2e-4)
             ctx.case(case, nontrivial=True)
             ctx.count("phase:" + kind)
-        ctx.traces += len(todo) + len(phase_jobs)
+        for (line, case, impl_rows), out in zip(ens_jobs, pouts[k:]):
+            t = out.split()
+            model = [[float(Fraction(v)) for v in r.split(",")] for r in t[1].split(";")] if t[0] == "ok" and t[1] != "~" else []
+            ok = len(model) == len(impl_rows) and all(
+                len(a) == len(b) and float(np.abs(np.array(a) - b).max()) <= 1e-5 * (float(np.abs(b).max()) or 1.0)
+                for a, b in zip(model, impl_rows))
+            ctx.agree("_eager_build_s_matrix_detect(rows)", case, [len(model)] + [r[:3] for r in model],
+                      [len(impl_rows)] + [r[:3].tolist() for r in impl_rows], ok=ok)
+            ctx.case(case, nontrivial=True)
+        ctx.traces += len(todo) + len(phase_jobs) + len(ens_jobs)
 
     def conformance(self, ctx: Ctx):
         # every (potential, evaluation mode, detector class) combination at least once, then random extra cases
